@@ -3,6 +3,7 @@ import SkoolVerif.Model.AsmModes
 import SkoolVerif.Model.AsmLayout
 import SkoolVerif.Spec.AsmLayout
 import SkoolVerif.Model.ReplaceNums
+import SkoolVerif.Model.ConvertCase
 open Proto
 
 /-!
@@ -14,8 +15,11 @@ Line protocol for C04.
   bin <tokens>                 -> BinWriter layout:  ok a:s.i ... | m k=v ...   or  err <kind>
   asm <tokens>                 -> skool2asm output assembled sequentially: ok a:s.i ...  or  err <kind>
   spec <tokens>                -> reference layout (Spec/AsmLayout.lean): ok ... | m ...  or  none
+  pos <tokens>                 -> label locations of the addressed instructions: ok addr=loc ...  or  err <kind>
+  pokes <tokens>               -> what the parser assembles into the #PEEK snapshot: ok a:s.i ...  or  err <kind>
   par <tokens>                 -> parser entries: ok E addr/op/org ... E ...  or  err <kind>
 
+  ccase <lower 0/1> <char codes...>  -> Assembler.convert_case: ok <char codes...>
   rnum <n|2u|2l|4u|4l> <skip_bit> <prefix code|-> <char codes...>  -> _replace_nums: ok <char codes...>
 
 Layout tokens:  B  (new block)   O- / O<n>  (@org)   R<lo>-<hi>  (@isub=!lo-hi)
@@ -174,6 +178,16 @@ def rnumLine (fmt : Option ReplaceNums.HexFmt) (skip : Bool) (pre : Option Char)
   let s := codes.map Char.ofNat
   ("ok " ++ showNats ((ReplaceNums.replaceNums fmt skip pre s).map Char.toNat)).trimAscii.toString
 
+def posLine (bs : List (Block Op)) : String :=
+  match asmLayout size bs with
+  | .error e => "err " ++ showErr e
+  | .ok _ => ("ok " ++ " ".intercalate ((asmLabelPos size bs).map (fun p => s!"{p.1}={p.2}"))).trimAscii.toString
+
+def pokesLine (bs : List (Block Op)) : String :=
+  match parPokes size bs with
+  | .error e => "err " ++ showErr e
+  | .ok out => ("ok " ++ showOut out).trimAscii.toString
+
 def handle (line : String) : String :=
   match words line with
   | ["modes", a, f] => match a.toNat?, f.toNat? with
@@ -191,12 +205,22 @@ def handle (line : String) : String :=
   | "asm" :: toks => match blocks? toks with
     | some bs => asmLine bs
     | none => "bad-op"
+  | "ccase" :: lw :: codes => match lw.toNat?, nats? codes with
+    | some lw, some codes =>
+      ("ok " ++ showNats ((ConvertCase.convertCase (lw != 0) (codes.map Char.ofNat)).map Char.toNat)).trimAscii.toString
+    | _, _ => "bad-op"
   | "rnum" :: f :: sk :: pre :: codes =>
     match fmt? f, sk.toNat?, (if pre == "-" then some none else pre.toNat?.map some), nats? codes with
     | some f, some sk, some pre, some codes => rnumLine f (sk != 0) (pre.map Char.ofNat) codes
     | _, _, _, _ => "bad-op"
   | "spec" :: toks => match blocks? toks with
     | some bs => specLine' bs
+    | none => "bad-op"
+  | "pos" :: toks => match blocks? toks with
+    | some bs => posLine bs
+    | none => "bad-op"
+  | "pokes" :: toks => match blocks? toks with
+    | some bs => pokesLine bs
     | none => "bad-op"
   | "par" :: toks => match blocks? toks with
     | some bs => parLine' bs
